@@ -423,6 +423,11 @@ def _drv_tree(depth, full_fanout_budget, chain=False):
             s = {"t": "leaf", "np": 2 if ch.flag(f"np2@{path}") else 1}
             # an explicit name equal to the name the module inherits anyway (attribute name / Sequential key)
             s["named"] = ch.flag(f"named@{path}") if key_kind in ("attr", "seq", "root") else False
+            if not is_root:
+                # forward() raises (before / after realising its first parameter); the caller catches and goes on
+                r = ch.choose(f"raise@{path}", [None, "pre", "post"])
+                if r:
+                    s["raise"] = r
             return s
         if chain:
             nk = 1 if budget > 2 else ch.all(f"nk@{path}", [1, 2])
@@ -962,10 +967,34 @@ def _tree_features(spec, share):
             f.add(f"{s['t']}:{s['how']}")
         if s.get("named"):
             f.add("named")
+        if s.get("raise"):
+            f.add("forward-raises")
     return f
 
 
+def _strip_raise(s):
+    s = dict(s)
+    s.pop("raise", None)
+    if "kids" in s:
+        s["kids"] = [_strip_raise(k) for k in s["kids"]]
+    return s
+
+
 def _exec_tree(item):
+    res = _exec_tree1(item)
+    if res.get("viols") and any(s.get("raise") for (_, _, s) in _collect(item["spec"])):
+        # a finding that the same tree shows without any raising forward() keeps its own class (one root cause, one key)
+        base = _exec_tree1(dict(item, spec=_strip_raise(item["spec"])))
+        base_keys = {v["key"] for v in base.get("viols", [])}
+        for v in res["viols"]:
+            head, cls = v["key"].rsplit("|", 1)
+            plain = "+".join(f for f in cls.split("+") if f != "forward-raises") or "plain"
+            if f"{head}|{plain}" in base_keys:
+                v["key"] = f"{head}|{plain}"
+    return res
+
+
+def _exec_tree1(item):
     import onnx
     import onnx_ir as ir
     from onnxscript._internal.builder import GraphBuilder
@@ -981,6 +1010,7 @@ def _exec_tree(item):
     torch_exc = None
     try:
         troot, tinst = N.build(tb, spec, root_name)
+        tb.entered = set()
         with torch.no_grad():
             ty = troot(torch.zeros(3))
             if twice:
@@ -1040,9 +1070,25 @@ def _exec_tree(item):
     by_obj = {}
     for name, v in g.initializers.items():
         by_obj.setdefault(id(v), []).append(name)
+    # parameters of a leaf whose forward() raised need not be realised (but if they are: once, under their path)
+    # (which forward() calls are entered at all is taken from the PyTorch mirror: a raise inside a Sequential skips
+    # the rest of that Sequential)
+    optional = set()
+    if any(s_.get("raise") for (_, _, s_) in _collect(spec)):
+        for (_, _, s_) in _collect(spec):
+            if s_["t"] != "leaf":
+                continue
+            lm = inst[s_["id"]]
+            entered = s_["id"] in tb.entered
+            if not entered or s_.get("raise") == "pre":
+                optional |= {id(getattr(lm, a)) for a in ("w", "b") if hasattr(lm, a)}
+            elif s_.get("raise") == "post" and hasattr(lm, "b"):
+                optional.add(id(lm.b))
     for pid, (p, paths) in params.items():
         names = by_obj.get(pid, [])
         want = [prefix + k for k in paths]
+        if pid in optional and not names:
+            continue
         if len(names) != 1:
             add("parameter-not-once", _where(spec, paths), {"parameter_paths": want, "initializer_names": names})
         elif names[0] not in want:
@@ -1050,10 +1096,13 @@ def _exec_tree(item):
     extra = [n for n, v in g.initializers.items() if id(v) not in params]
     if extra:
         add("unexpected-initializer", "extra", {"names": extra})
-    if not shared and sorted(inits) != sorted(prefix + k for k in sd):
+    opt_names = {prefix + k for pid, (p, paths) in params.items() if pid in optional for k in paths}
+    if not shared and sorted(set(inits) | opt_names) != sorted({prefix + k for k in sd} | opt_names):
         if not viols:
             add("initializer-name", _where(spec, set(inits) ^ {prefix + k for k in sd}), {"initializers": inits, "state_dict": sd})
     # 3. valid model computing the sum of the parameters actually applied
+    if y is x:
+        y = gb.op.Identity(y)     # every call was refused: do not turn the graph input itself into the output
     gb.add_output(y, "out")
     m = ir.serde.serialize_model(ir.Model(g, ir_version=10))
     probs = wf.check_model(m, unique_node_names=True)
@@ -1066,7 +1115,11 @@ def _exec_tree(item):
     try:
         got = runeq.run_ort(m, {"x": np.zeros(3, np.float32)})
         d = runeq.compare(got, [t_y])
-        if d and not any("|parameter-not-once|" in v["key"] for v in viols):
+        if "seq:slice" in feats and "forward-raises" in feats:
+            # Sequential[1:] is a ModuleList here (known finding Sequential-slice) and is iterated child by child, the
+            # PyTorch mirror calls the sliced Sequential as one module: which calls a raise skips differs by construction
+            counts["not_compared_slice_with_raise"] = 1
+        elif d and not any("|parameter-not-once|" in v["key"] for v in viols):
             add("not-equal", _where(spec, []), {"diff": d})
     except runeq.RunError as e:
         if not viols:
